@@ -107,6 +107,26 @@ Theorem C12_rerun_clean : forall pos s n, Closed s -> RefsResolve s -> Acyclic s
 Proof. exact thm_rerun_clean. Qed.
 Print Assumptions C12_rerun_clean.
 
+(** gc = transaction.GarbageCollect (the txs/ refs of expired transactions are dropped: [expired], any
+    predicate on ref names), then prune.  Every ref that is not expired - in particular the refs of
+    open, unexpired transactions - is still there and everything reachable from the surviving refs
+    keeps all it had; only refs of expired transactions disappear. *)
+Theorem C12_gc_safe : forall pos expired s, Closed s -> RefsResolve s ->
+  let s0 := gc_refs expired s in
+  let s' := gced_with pos expired s in
+  (forall n c, In (n, c) (refs s) -> expired n = false -> In (n, c) (refs s') /\ reach s0 c) /\
+  (forall n c, In (n, c) (refs s') -> In (n, c) (refs s) /\ expired n = false) /\
+  RefsResolve s' /\ Closed s' /\
+  (forall c, reach s0 c -> commit_intact s s' c) /\ (forall c, reach s' c <-> reach s0 c).
+Proof. exact thm_gc_safe. Qed.
+Print Assumptions C12_gc_safe.
+
+(** ... and what only expired transactions (or nothing) reached is gone. *)
+Theorem C12_gc_complete : forall pos expired s, Closed s -> RefsResolve s -> Acyclic s ->
+  forall c, ~ reach (gc_refs expired s) c -> get_commit (gced_with pos expired s) c = None.
+Proof. exact thm_gc_complete. Qed.
+Print Assumptions C12_gc_complete.
+
 (** ---- refuted variants and behaviours outside the property text (concrete witnesses) ---- *)
 
 (** The code before fix 98a13da (slot indexed without the equality check): one reachable shallow
